@@ -99,6 +99,27 @@ Definition f_rename (f : folder) (m : nat) (idx : N) : list (nat * N * N) :=
             end
   end.
 
+(** prepare_rename: the identifier the rename would replace at the cursor: the identifier of a
+    declaration, the identifier of an import qualifier, or the last identifier of a variable
+    (also when the cursor is on its qualifier) *)
+Fixpoint decl_ident_span_at (ns : list dnode) (idx : N) : option (N * N) :=
+  match ns with
+  | [] => None
+  | n :: ns' => if n_decl n && contains (n_istart n) (n_iend n) idx then Some (n_istart n, n_iend n) else decl_ident_span_at ns' idx
+  end.
+Definition f_prepare (f : folder) (m : nat) (idx : N) : option (N * N) :=
+  match decl_ident_span_at (fm_nodes (mod_at f m)) idx with
+  | Some se => Some se
+  | None =>
+      match qual_at (fm_quals (mod_at f m)) idx with
+      | Some q => Some (q_start q, q_end q)
+      | None => match var_ident_at (fm_uses (mod_at f m)) idx with
+                | Some v => Some (u_istart (v_use v), u_iend (v_use v))
+                | None => None
+                end
+      end
+  end.
+
 (** span discipline of one module (C11: the leaves tile the text): variables are disjoint and
     in document order; the identifiers of a variable lie inside it, the qualifier before the
     last identifier *)
